@@ -137,6 +137,14 @@ func (t *Topic) procPresReq(fromUserID, what string, wantReply bool) string {
 		what = ""
 	default:
 		// All other notifications are not processed here
+		if t.cat == types.TopicCatMe && (what == "upd" || what == "ua") && cmd == "" {
+			// An update of a P2P contact's description or user agent. The sender skips contacts it
+			// holds as offline but it does not know if this user wants the contact's notifications:
+			// do not forward them if the contact is disabled (this user has no 'P' in the P2P topic).
+			if psd, ok := t.perSubs[fromUserID]; ok && !psd.enabled && strings.HasPrefix(fromUserID, "usr") {
+				return ""
+			}
+		}
 		return what
 	}
 
